@@ -894,6 +894,12 @@ int32_t tls13VerifyBinder(ssl_t *ssl,
     hmacAlg = tls13GetPskHmacAlg(ssl->sec.tls13ChosenPsk);
     hmacLen = tls13GetPskHashLen(ssl->sec.tls13ChosenPsk);
 
+    if (ssl->sec.tls13BindersLen > ssl->sec.tls13CHLen)
+    {
+        /* The binders cannot be longer than the ClientHello they end. */
+        ssl->err = SSL_ALERT_DECODE_ERROR;
+        return MATRIXSSL_ERROR;
+    }
     tls13TranscriptHashUpdate(ssl,
             ssl->sec.tls13CHStart,
             ssl->sec.tls13CHLen - ssl->sec.tls13BindersLen);
